@@ -77,6 +77,8 @@ class Check(object):
 
     def floor(self, rule, minimum):
         n = sum(1 for o in self.obs if o.rule == rule)
+        if any(o.status == REFUTED for o in self.obs):
+            return  # a definite refutation stands on its own; floors guard against vacuous *passes*
         if n < minimum:
             from .program import AnalysisError
             raise AnalysisError("instance floor not met for %s: found %d obligations, confirmed %d on the pinned tree"
